@@ -191,6 +191,11 @@ func union(ctx context.Context, concurrencyLimit int, handlers ...CheckHandlerFu
 
 		case outcome, ok := <-out:
 			if !ok {
+				// out is closed with outcomes missing only when they were dropped because the
+				// context was cancelled: the operands seen so far do not decide the result.
+				if ctx.Err() != nil {
+					return nil, ctx.Err()
+				}
 				break
 			}
 
@@ -259,6 +264,11 @@ func intersection(ctx context.Context, concurrencyLimit int, handlers ...CheckHa
 
 		case outcome, ok := <-out:
 			if !ok {
+				// out is closed with outcomes missing only when they were dropped because the
+				// context was cancelled: the operands seen so far do not decide the result.
+				if ctx.Err() != nil {
+					return nil, ctx.Err()
+				}
 				break
 			}
 
